@@ -165,7 +165,8 @@ CHECKS = {
          "carries the controller's finalizer, and an output is destroyed only from tearing-down phase with no finalizers "
          "(TraceLifecycle.tla, JUDGE=C07); the models check FinBeforeOut as an invariant.",
     note="Trusted: the recording proxy serialises writes around the store call (commit order). Cleanup controllers "
-         "(cleanup.NewController) are not driven yet. Known finding for the ignore-teardown options is listed.",
+         "(cleanup.NewController + RemoveOutputs) are modelled (LifecycleCL.tla) and driven as configuration CL; the controller's own "
+         "writes can be parked and stepped so external operations land between any two of them. Known finding for the ignore-teardown options is listed.",
     technique="TLA+ controller lifecycle models + TLC; write-log recording; TLC trace validation after every write",
     ref="5.7"),
  "C10": dict(
